@@ -46,15 +46,15 @@ def entitled(user_id, prefs, topic, unit, Scope):
 
 def scenarios():
     from openpectus.aggregator.models import NotificationScope as Scope, NotificationTopic as Topic, Contributor
-    users = ["u1", "u2"]
+    users = ["".join(["u", str(k)]) for k in (1, 2)]       # built at run time: equal to other "u1" strings but not the same object
     per_user = list(itertools.product(list(Scope), ([], ["r"]), ([], ["E"]), ([Topic.RUN_START, Topic.NEW_CONTRIBUTOR], [Topic.RUN_STOP])))
     for (c1, c2) in itertools.product(per_user, per_user):
         for req in (set(), {"r"}, {"x"}):
             for contrib in ((), ("u1",), ("u2",), ("u1", "u2")):
                 prefs = [Pref(user_id=u, scope=c[0], user_roles=list(c[1]), process_units=list(c[2]), topics=list(c[3]))
                          for u, c in zip(users, (c1, c2))]
-                subs = [Sub(user_id="u1", endpoint="e1", auth="a", p256dh="k"), Sub(user_id="u1", endpoint="e1b", auth="a", p256dh="k"),
-                        Sub(user_id="u2", endpoint="e2", auth="a", p256dh="k")]
+                subs = [Sub(user_id="".join(["u", "1"]), endpoint="e1", auth="a", p256dh="k"), Sub(user_id="".join(["u", "1"]), endpoint="e1b", auth="a", p256dh="k"),
+                        Sub(user_id="".join(["u", "2"]), endpoint="e2", auth="a", p256dh="k")]
                 unit = SimpleNamespace(engine_id="E", required_roles=req, contributors={Contributor(id=u, name=u) for u in contrib})
                 yield prefs, subs, unit
 
@@ -100,7 +100,7 @@ def check_publish():
         for k, (prefs, subs, unit) in enumerate(scenarios()):
             if k % 7:
                 continue        # thinned: the async path is slower; the sync selection is checked exhaustively above
-            for topic, cid in ((Topic.RUN_START, None), (Topic.NEW_CONTRIBUTOR, "u1"), (Topic.NEW_CONTRIBUTOR, None)):
+            for topic, cid in ((Topic.RUN_START, None), (Topic.NEW_CONTRIBUTOR, "".join(["u", "1"])), (Topic.NEW_CONTRIBUTOR, None)):
                 n += 1
                 cur["repo"] = FakeRepo(prefs, subs)
                 posted.clear()
